@@ -13,52 +13,28 @@ Local Open Scope N_scope.
    Clause 3 of the property: "for any input whatsoever, row addresses never decrease within a
    sequence and never exceed the address size".
 
-   hdr_ok h   := line_range >= 1, maximum_operations_per_instruction >= 1, opcode_base <= 255 and
-                 1 <= address_size <= 8: what LineProgramHeader::parse establishes (parse_header_hdr_ok)
-                 when the caller's address size is a real one. The program bytes (h_program h) are
-                 arbitrary.
-   rows_ghost := the rows of `rows()` paired with a ghost flag "a tombstoned end_sequence row was dropped
-                 since the previous returned row".
+   hdr_ok h      := line_range >= 1, maximum_operations_per_instruction >= 1, opcode_base <= 255 and
+                    1 <= address_size <= 8: what LineProgramHeader::parse establishes (parse_header_hdr_ok)
+                    when the caller's address size is a real one. The program bytes (h_program h) are
+                    arbitrary.
+   rows_monotone := for consecutive returned rows r1, r2 with r1 not an end_sequence row,
+                    address r1 <= address r2   (a sequence is what a consumer sees: the rows up to and
+                    including an end_sequence row).
+   The model mirrors the code after fix 9872ff0 (LineRows::in_sequence): a tombstoned end_sequence row is
+   returned when rows of its sequence were already returned. Before that fix the statement was refuted by
+   the program of `repaired_witness_rows` (known_findings.txt, `fixed:` line).
    ------------------------------------------------------------------------------------------------ *)
 
-(* FULL STATEMENT (fails on the faithful model, see monotone_any_input_refuted and known_findings.txt):
-     forall dbg be h, hdr_ok h -> rows_monotone (fst (rows_model dbg be h))
-   where a sequence is what a consumer sees: the rows up to and including an end_sequence row. *)
-Theorem monotone_any_input_refuted :
-  exists dbg be h, hdr_ok h /\ ~ rows_monotone (fst (rows_model dbg be h)).
-Proof. exact monotone_rows_refuted_lemma. Qed.
-
-(* the witness: set_address 0x1000; copy; set_address 0; end_sequence; set_address 0x500; copy; end_sequence *)
-Example monotone_witness_rows : forall dbg,
-  map (fun r => (r_addr r, r_end r)) (fst (rows_model dbg false witness_header)) =
-  [(4096, false); (1280, false); (1280, true)].
-Proof. exact witness_rows. Qed.
-
-(* Weakened to inputs outside the known class (no end_sequence row swallowed after a row of its
-   sequence): for ALL program bytes and all headers, both build modes. *)
+(* FULL statement: every header, every program byte string, both build modes, no exclusion *)
 Theorem monotone_any_input : forall dbg be h, hdr_ok h ->
-  let l := fst (fst (rows_ghost dbg be h)) in
-  fst (rows_model dbg be h) = map fst l /\
-  (~ swallowed_end l ->
-   rows_monotone (fst (rows_model dbg be h)) /\
-   Forall (fun r => r_addr r <= amask h) (fst (rows_model dbg be h))).
-Proof. exact monotone_unless_swallowed. Qed.
-
-(* Without any exclusion: between two consecutive returned rows the address does not decrease unless
-   the first is an end_sequence row or an end_sequence instruction was executed (and dropped) between
-   them — i.e. monotone within every sequence delimited by executed DW_LNE_end_sequence instructions —
-   and every returned row is inside the address size and is not a tombstone row. *)
-Theorem monotone_between_end_sequences : forall dbg be h, hdr_ok h ->
-  let l := fst (fst (rows_ghost dbg be h)) in
-  (forall p q, adjacent l p q -> r_end (fst p) = false -> snd q = false -> r_addr (fst p) <= r_addr (fst q)) /\
-  Forall (fun r => r_addr r <= amask h /\ r_tomb r = false) (fst (rows_model dbg be h)).
-Proof. exact monotone_between_ends. Qed.
+  rows_monotone (fst (rows_model dbg be h)) /\
+  Forall (fun r => r_addr r <= amask h) (fst (rows_model dbg be h)).
+Proof. exact monotone_any_input_lemma. Qed.
 
 (* the same for a whole unit given as bytes: header decode + rows, no well-formedness hypothesis *)
 Theorem monotone_any_unit : forall dbg be asz0 bs h, 1 <= asz0 <= 8 ->
   parse_header dbg be asz0 bs = Ok h ->
-  let l := fst (fst (rows_ghost dbg be h)) in
-  (~ swallowed_end l -> rows_monotone (fst (rows_model dbg be h))) /\
+  rows_monotone (fst (rows_model dbg be h)) /\
   Forall (fun r => r_addr r <= amask h) (fst (rows_model dbg be h)) /\
   snd (rows_model dbg be h) <> SPanic /\ snd (rows_model dbg be h) <> SFuel.
 Proof. exact monotone_any_unit_lemma. Qed.
@@ -70,12 +46,16 @@ Proof. exact parse_header_ok. Qed.
 (* the hypotheses are satisfiable by non-trivial instances *)
 Example hdr_ok_example : hdr_ok sample_header /\ hdr_ok witness_header.
 Proof. exact hdr_ok_examples. Qed.
-Example not_swallowed_example : forall dbg,
-  ~ swallowed_end (fst (fst (rows_ghost dbg false sample_header))) /\
-  map (fun p => (r_addr (fst p), r_line (fst p), r_end (fst p), snd p)) (fst (fst (rows_ghost dbg false sample_header))) =
-  [(4100, 2, false, false); (4104, 2, false, false); (4104, 2, true, false);
-   (2048, 1, false, false); (2048, 1, true, false)].
-Proof. exact not_swallowed_sample. Qed.
+Example sample_rows_example : forall dbg,
+  map (fun r => (r_addr r, r_line r, r_end r)) (fst (rows_model dbg false sample_header)) =
+  [(4100, 2, false); (4104, 2, false); (4104, 2, true); (2048, 1, false); (2048, 1, true)].
+Proof. exact sample_rows. Qed.
+(* set_address 0x1000; copy; set_address 0; end_sequence; set_address 0x500; copy; end_sequence —
+   formerly rows 0x1000, 0x500, 0x500(end) in ONE sequence; now two sequences *)
+Example repaired_witness_rows : forall dbg,
+  map (fun r => (r_addr r, r_end r)) (fst (rows_model dbg false witness_header)) =
+  [(4096, false); (4096, true); (1280, false); (1280, true)].
+Proof. exact witness_rows. Qed.
 
 (* ------------------------------------------------------------------------------------------------
    No panic, and the fuel of the model loops suffices (feeds C01), both build modes.
@@ -148,13 +128,11 @@ Theorem execute_refines_spec : forall dbg h r i,
   pwf h -> inv h r -> r_end r = false -> step_wf h (rep r) i = true -> exec_sim_stmt dbg h r i.
 Proof. exact exec_sim. Qed.
 
-(* rows() over the encoded program = rows_spec, run to completion without error, no tombstone rows,
-   outside the known class of monotone_any_input *)
+(* rows() over the encoded program = rows_spec, run to completion without error, no tombstone rows *)
 Theorem rows_refine_spec : forall dbg be h is,
   prog_wf h is = true -> h_program h = enc_prog be h is ->
   exists rs, rows_model dbg be h = (rs, SEnd) /\ map rep rs = rows_spec h is /\
-             Forall (fun r => r_tomb r = false) rs /\
-             ~ swallowed_end (fst (fst (rows_ghost dbg be h))).
+             Forall (fun r => r_tomb r = false) rs.
 Proof. exact rows_refine_spec_lemma. Qed.
 
 (* rep is injective on non-tombstone rows, so `map rep rs = rows_spec ..` determines rs *)
@@ -196,8 +174,16 @@ Theorem sequences_eq_rows : forall dbg be h files ss,
     snd (rows_model dbg be h) = SEnd /\
     Forall (fun r => r_end r = false) tail /\
     Forall (seq_good dbg be h) ss /\
-    files = st_added (snd (rows_ghost dbg be h)).
+    files = st_added (snd (rows_full dbg be h)).
 Proof. exact sequences_eq_rows_lemma. Qed.
+
+(* with a decoded header the reported bounds are ordered and inside the address size, and every resumed
+   sequence is monotone (this failed before fix 9872ff0: start 0x1000 > end 0x500 on the witness) *)
+Theorem sequence_bounds_ordered : forall dbg be h files ss, hdr_ok h ->
+  sequences dbg be h = Ok (files, ss) ->
+  Forall (fun s => sq_start s <= sq_end s /\ sq_end s <= amask h /\
+                   rows_monotone (fst (resume_rows dbg be h s))) ss.
+Proof. exact sequence_bounds_ordered_lemma. Qed.
 
 (* the fact it rests on: the instruction decoder only looks at the bytes it consumes *)
 Theorem parse_insn_is_local : forall dbg be h a suf i r,
@@ -265,7 +251,9 @@ Example raw_wf5_example_tables : forall be,
   h_addr_size (header_of_raw be 4 sample_raw5 [x01]) = 8.
 Proof. exact sample_raw5_files. Qed.
 
-Check monotone_any_input_refuted : exists dbg be h, hdr_ok h /\ ~ rows_monotone (fst (rows_model dbg be h)).
+Check monotone_any_input : forall dbg be h, hdr_ok h ->
+  rows_monotone (fst (rows_model dbg be h)) /\
+  Forall (fun r => r_addr r <= amask h) (fst (rows_model dbg be h)).
 Check no_panic_parse_insn : forall dbg be h inp,
   parse_insn dbg be h inp <> Panic /\ parse_insn dbg be h inp <> OutOfFuel.
 Check insn_roundtrip : forall dbg be h i rest,
@@ -273,8 +261,7 @@ Check insn_roundtrip : forall dbg be h i rest,
 Check rows_refine_spec : forall dbg be h is,
   prog_wf h is = true -> h_program h = enc_prog be h is ->
   exists rs, rows_model dbg be h = (rs, SEnd) /\ map rep rs = rows_spec h is /\
-             Forall (fun r => r_tomb r = false) rs /\
-             ~ swallowed_end (fst (fst (rows_ghost dbg be h))).
+             Forall (fun r => r_tomb r = false) rs.
 Check header_roundtrip_v5 : forall dbg be asz0 r prog tail,
   raw_wf5 be r prog ->
   parse_header dbg be asz0 (enc_unit be r prog ++ tail) = Ok (header_of_raw be asz0 r prog).
@@ -285,4 +272,4 @@ Check sequences_eq_rows : forall dbg be h files ss,
     snd (rows_model dbg be h) = SEnd /\
     Forall (fun r => r_end r = false) tail /\
     Forall (seq_good dbg be h) ss /\
-    files = st_added (snd (rows_ghost dbg be h)).
+    files = st_added (snd (rows_full dbg be h)).
